@@ -102,7 +102,7 @@ func genQLeaf(t *rapid.T, resource string, vars map[string]qVar) any {
 			return map[string]any{"$gte": map[string]any{"id": json.Number("2")}}
 		}
 	}
-	switch rapid.IntRange(0, 7).Draw(t, "leaf") {
+	switch rapid.SampledFrom([]int{0, 1, 2, 3, 3, 3, 4, 4, 5, 5, 6, 7}).Draw(t, "leaf") {
 	case 0:
 		return map[string]any{"$match": map[string]any{addrKey: use(rapid.SampledFrom(qStringVars[:2]).Draw(t, "strVar"), "string")}}
 	case 1:
@@ -150,8 +150,8 @@ func genQFilter(t *rapid.T, resource string, vars map[string]qVar, depth int) an
 
 func genQParams(t *rapid.T, resource string, now time.Time, forRequest bool) map[string]any {
 	p := map[string]any{}
-	if rapid.IntRange(0, 1).Draw(t, "withPageSize") == 0 {
-		p["pageSize"] = json.Number(fmt.Sprint(rapid.SampledFrom([]int{1, 2, 3, 15, 100, 250}).Draw(t, "pageSize")))
+	if rapid.IntRange(0, 2).Draw(t, "withPageSize") != 0 {
+		p["pageSize"] = json.Number(fmt.Sprint(rapid.SampledFrom([]int{1, 1, 2, 2, 3, 15, 100, 250}).Draw(t, "pageSize")))
 	}
 	if rapid.IntRange(0, 2).Draw(t, "withSort") == 0 {
 		var cols []string
@@ -453,7 +453,7 @@ func TestC37(t *testing.T) {
 					case "string":
 						val = rapid.SampledFrom(append(append([]string{}, qAddrValues...), "r1", "v", "1", "")).Draw(rt, "strVal")
 					case "int":
-						val = json.Number(rapid.SampledFrom([]string{"0", "1", "2", "3", "5", "50", "9007199254740993", "100000000000000000000", "-1"}).Draw(rt, "intVal"))
+						val = json.Number(rapid.SampledFrom([]string{"0", "1", "1", "2", "2", "3", "5", "50", "9007199254740993", "100000000000000000000", "-1"}).Draw(rt, "intVal"))
 						boundNonString = true
 					case "boolean":
 						val = rapid.Bool().Draw(rt, "boolVal")
